@@ -19,6 +19,8 @@ func checkC14(p *Prog, r *Result, tier string) {
 	r.Rule("C14.R3", "who may touch the map: the inner cache map is accessed only by methods of its owner type", 1)
 	r.Rule("C14.R4", "the clone handles every aliasing kind: the kind switch of the deep clone has a recursing arm for each of Ptr, Slice, Map, Struct and Array", 5)
 	r.Rule("C14.R6", "the only object a write API retains is the schema's type witness, and it is used for its type only: it never reaches a hook other than UUID, the serialiser or the clone function", 1)
+	r.Rule("C14.R7", "an empty container is not a nil one: the deep clone never decides a branch on reflect.Value.Len() == 0 (its early exit is a nil test), so empty slices and maps are cloned as empty, not as nil", 1)
+	checkCloneEmptiness(p, r, "C14.R7")
 	r.Rule("C14.R5", "fresh objects on reads: the iterator allocates a new value per element before filling it", 1)
 	r.NotDecided = []string{"'a cached read equals a file round trip' (value equality of clone vs JSON: nil vs empty containers, monotonic clock, unexported fields)", "unexported pointer fields are shared by documented design (comment in object.go)"}
 	a := p.A
@@ -357,6 +359,49 @@ func helperRecursion(h, cv *ssa.Function) (recurses, conditional bool) {
 		}
 	}
 	return
+}
+
+// checkCloneEmptiness: the deep clone must tell an empty container from a nil one.
+func checkCloneEmptiness(p *Prog, r *Result, rule string) {
+	cv := p.FuncByName("cloneValue")
+	if cv == nil {
+		r.Report(rule, "cloneValue", "nil test", Undecided, "recursive clone not found", "", nil, false)
+		return
+	}
+	bad := false
+	var at ssa.Instruction
+	for _, f := range calleesWithin(p, cv, 1) {
+		for _, b := range f.Blocks {
+			for _, in := range b.Instrs {
+				bo, ok := in.(*ssa.BinOp)
+				if !ok || (bo.Op != token.EQL && bo.Op != token.NEQ) {
+					continue
+				}
+				for i, side := range []ssa.Value{bo.X, bo.Y} {
+					other := []ssa.Value{bo.Y, bo.X}[i]
+					c, ok := side.(*ssa.Call)
+					if !ok || c.Call.StaticCallee() == nil || c.Call.StaticCallee().Name() != "Len" || c.Call.StaticCallee().Signature.Recv() == nil || !isNamedFrom(c.Call.StaticCallee().Signature.Recv().Type(), "reflect", "Value") {
+						continue
+					}
+					if k, ok := other.(*ssa.Const); ok && k.Value != nil && k.Value.String() == "0" {
+						// decides a branch?
+						if bo.Referrers() != nil {
+							for _, rf := range *bo.Referrers() {
+								if _, ok := rf.(*ssa.If); ok {
+									bad, at = true, in
+								}
+							}
+						}
+					}
+				}
+			}
+		}
+	}
+	if bad {
+		r.Report(rule, FuncName(cv), "nil, not emptiness, ends the clone early", Violated, "the deep clone branches on the length of a container being 0: an empty non-nil slice or map is then not cloned and the copy holds nil, which the object writer encodes as null instead of [] / {} (the file is no longer the JSON encoding of the accepted object, and a reopened database hands back nil)", p.Pos(at.Pos()), nil, true)
+	} else {
+		r.Report(rule, FuncName(cv), "nil, not emptiness, ends the clone early", Discharged, "", p.Pos(cv.Pos()), nil, true)
+	}
 }
 
 func init() { register("C14", checkC14) }
